@@ -1696,12 +1696,16 @@ def _read_reader_conditional(ctx: ReaderContext) -> LispReaderForm:
         ctx.reader.advance()
     elif char == "(":
         is_splicing = False
+    elif char == "":
+        raise ctx.eof_error("Unexpected EOF in reader conditional")
     else:
         raise ctx.syntax_error(
             f"Unexpected char '{char}'; expected opening '(' for reader conditional"
         )
 
     open_char = reader.advance()
+    if open_char == "":
+        raise ctx.eof_error("Unexpected EOF in reader conditional")
     if open_char != "(":
         raise ctx.syntax_error(
             f"Expected opening '(' for reader conditional; got '{open_char}'"
